@@ -440,11 +440,19 @@ def compare_tables(t1, t2):
         return False
     # pe is indeterminate to solver tolerance in a system without a redox couple (it moves in the 4th digit with the path taken): not a result
     skip = set(j for j, h in enumerate(t1[0]) if h == "Spe") if t1 else set()
+    # saturation indices far below saturation are logarithms of trace amounts (1e-20 atm of a gas): beyond solver tolerance
+    trace = set(j for j, h in enumerate(t1[0]) if h.startswith("Ssi_")) if t1 else set()
     for r1, r2 in zip(t1, t2):
         if len(r1) != len(r2):
             return False
         for j, (a, b) in enumerate(zip(r1, r2)):
-            if j not in skip and not cell_close(a, b):
+            if j in skip:
+                continue
+            if j in trace and a[:1] == "D" and b[:1] == "D":
+                x, y = float.fromhex(a[1:]), float.fromhex(b[1:])
+                if abs(x - y) <= (5e-7 if abs(x) < 10 else 0.5):
+                    continue
+            if not cell_close(a, b):
                 return False
     return True
 
